@@ -97,5 +97,19 @@ static void blk_ext_sizes(void) {
 			if (g != 1) { snprintf(key, sizeof key, "C15:ext-sizes:extension-not-found-again:%s", i == 0 ? "keyUsage" : i == 1 ? (which ? "issuerAltName" : "subjectAltName") : "basicConstraints"); vh_viol(key, "\"dns_len\":%d,\"ret\":%d", n, g); continue; }
 			if (i == 1) { uint8_t want[600], *wp = want; size_t wl = 0; x509_general_names_to_der(gns, gl, &wp, &wl); if (vl != wl || memcmp(val, want, wl) || (crit != 0 && crit != -1)) { snprintf(key, sizeof key, "C15:ext-sizes:%s:value-differs", which ? "issuerAltName" : "subjectAltName"); vh_viol(key, "\"dns_len\":%d,\"vlen\":%zu,\"want\":%zu", n, vl, wl); } } } }
 }
-static void body(void) { blk_certs(); blk_reqs(); blk_crls(); blk_ext_sizes(); }
+/* names: every subset of the six attributes x509_name_set knows, each present attribute either a PrintableString-only text or a UTF-8 text; the
+   produced name is read with the harness DER reader: attribute order and OIDs, one attribute per RDN, string type PrintableString exactly when the
+   text is printable (UTF8String otherwise), the text itself; then a certificate with that subject must give the same bytes back */
+static void blk_names(void) {
+	if (!vh_block_begin("names")) return; static const uint8_t AOID[6] = { 6, 8, 7, 10, 11, 3 }; /* C ST L O OU CN */ static const char *PRN[6] = { "CN", "Bei Jing", "Hai-Dian", "Org (1)", "Unit 7", "name.example" }; static const char *UTF[6] = { NULL, "\xe5\x8c\x97\xe4\xba\xac", "\xe6\xb5\xb7\xe6\xb7\x80", "\xe7\xbb\x84\xe7\xbb\x87", "\xe9\x83\xa8\xe9\x97\xa8", "\xe5\x90\x8d\xe5\xad\x97" };
+	for (int mask = 0; mask < 729 * 1; mask++) { if (!vh_next()) continue; int m = mask, kind[6]; for (int i = 0; i < 6; i++) { kind[i] = m % 3; m /= 3; } if (kind[0] == 2) continue; /* country is a two-letter PrintableString */ if (kind[5] == 0) continue; /* the harness always names the subject */
+		const char *v[6]; for (int i = 0; i < 6; i++) v[i] = kind[i] == 0 ? NULL : kind[i] == 1 ? PRN[i] : UTF[i]; uint8_t nm[512]; size_t nl = 0; int r = x509_name_set(nm, &nl, sizeof nm, v[0], v[1], v[2], v[3], v[4], v[5]); vh_eval(vh_mix(600000 + mask)); char key[160];
+		if (r != 1) { snprintf(key, sizeof key, "C15:names:x509_name_set-refused"); vh_viol(key, "\"kinds\":\"%d%d%d%d%d%d\"", kind[0], kind[1], kind[2], kind[3], kind[4], kind[5]); continue; }
+		der_cur c = { nm, nl }; int ok = 1, at = 0; const char *why = ""; for (int i = 0; i < 6 && ok; i++) { if (!v[i]) continue; int tag; const uint8_t *sv; size_t svl; if (!der_tlv(&c, &tag, &sv, &svl, NULL) || tag != 0x31) { ok = 0; why = "rdn-missing"; break; } der_cur s1 = { sv, svl }; const uint8_t *av; size_t avl; if (!der_tlv(&s1, &tag, &av, &avl, NULL) || tag != 0x30 || s1.n) { ok = 0; why = "rdn-not-a-single-attribute"; break; }
+			der_cur a = { av, avl }; const uint8_t *ov, *tv; size_t ovl, tvl; int ttag; if (!der_tlv(&a, &tag, &ov, &ovl, NULL) || tag != 0x06 || ovl != 3 || ov[0] != 0x55 || ov[1] != 0x04 || ov[2] != AOID[i]) { ok = 0; why = "attribute-oid-or-order"; break; } if (!der_tlv(&a, &ttag, &tv, &tvl, NULL) || a.n) { ok = 0; why = "attribute-value"; break; }
+			if (tvl != strlen(v[i]) || memcmp(tv, v[i], tvl)) { ok = 0; why = "attribute-text"; break; } if (ttag != (kind[i] == 1 ? 0x13 : 0x0c)) { ok = 0; why = kind[i] == 1 ? "printable-text-not-PrintableString" : "utf8-text-not-UTF8String"; at = i; break; } at = i; }
+		if (ok && c.n) { ok = 0; why = "extra-rdn"; } if (!ok) { snprintf(key, sizeof key, "C15:names:%s", why); vh_viol(key, "\"kinds\":\"%d%d%d%d%d%d\",\"attribute\":%d,\"name\":\"%s\"", kind[0], kind[1], kind[2], kind[3], kind[4], kind[5], at, vh_hex(nm, nl > 120 ? 120 : nl)); continue; }
+		if ((mask % 7) == 0 || vh_thorough) { static uint8_t cert[2048]; uint8_t *p = cert; size_t cl = 0; uint8_t serial[2] = { 2, (uint8_t)mask }; venv_reset(7000 + mask); r = x509_cert_sign_to_der(X509_version_v3, serial, 2, OID_sm2sign_with_sm3, NAME_I, NIL, VENV_NOW - 1000, VENV_NOW + 100000, nm, nl, &CK[0], NULL, 0, NULL, 0, NULL, 0, &CK[1], SM2_DEFAULT_ID, 16, &p, &cl); const uint8_t *sub; size_t subl; if (r != 1 || x509_cert_get_subject(cert, cl, &sub, &subl) != 1 || subl != nl || memcmp(sub, nm, nl)) { vh_viol("C15:names:subject-not-returned-as-supplied", "\"kinds\":\"%d%d%d%d%d%d\",\"ret\":%d", kind[0], kind[1], kind[2], kind[3], kind[4], kind[5], r); } } }
+}
+static void body(void) { blk_certs(); blk_reqs(); blk_crls(); blk_ext_sizes(); blk_names(); }
 int main(int argc, char **argv) { vh_init(argc, argv); if (!freopen("/dev/null", "w", stderr)) {} creds_init(); make_name(NAME_I, &NIL, "Issuer"); x509_name_set(NAME_S, &NSL, sizeof NAME_S, "CN", "Beijing", "Haidian", "PKU", "CS", "Subject"); vh_guarded("C15", body, 120); return vh_finish(); }
